@@ -21,10 +21,11 @@ VARIABLES
   appClosed, tgtClosed,     \* "no" | "fin" | "close" | "rst"
   cleanApp, cleanTgt,       \* the closing side closed in an orderly way with nothing unread (see Close)
   appSaw, tgtSaw,           \* "no" | "eof" | "rst"
-  fault                     \* a link / process fault was injected: completeness is no longer owed
+  fault,                    \* a link / process fault was injected: completeness is no longer owed
+  lapsed                    \* after one side had closed, the outer sides stayed silent for longer than the close grace
 
 vars == <<phase, want, reach, dials, sentUp, gotUp, sentDown, gotDown, appClosed, tgtClosed, cleanApp, cleanTgt,
-          appSaw, tgtSaw, fault>>
+          appSaw, tgtSaw, fault, lapsed>>
 
 Hows == {"fin", "close", "rst"}
 
@@ -32,7 +33,7 @@ Init ==
   /\ phase = "idle" /\ want = 0 /\ reach = "ok" /\ dials = <<>>
   /\ sentUp = 0 /\ gotUp = 0 /\ sentDown = 0 /\ gotDown = 0
   /\ appClosed = "no" /\ tgtClosed = "no" /\ cleanApp = FALSE /\ cleanTgt = FALSE
-  /\ appSaw = "no" /\ tgtSaw = "no" /\ fault = FALSE
+  /\ appSaw = "no" /\ tgtSaw = "no" /\ fault = FALSE /\ lapsed = FALSE
 
 Dialed == dials # <<>>
 
@@ -41,17 +42,17 @@ Dialed == dials # <<>>
 
 Open(w, r) ==
   /\ phase = "idle" /\ phase' = "open" /\ want' = w /\ reach' = r
-  /\ UNCHANGED <<dials, sentUp, gotUp, sentDown, gotDown, appClosed, tgtClosed, cleanApp, cleanTgt, appSaw, tgtSaw, fault>>
+  /\ UNCHANGED <<dials, sentUp, gotUp, sentDown, gotDown, appClosed, tgtClosed, cleanApp, cleanTgt, appSaw, tgtSaw, fault, lapsed>>
 
 Refused ==            \* the local handshake itself was refused: nothing may follow
   /\ phase = "idle" /\ phase' = "refused"
-  /\ UNCHANGED <<want, reach, dials, sentUp, gotUp, sentDown, gotDown, appClosed, tgtClosed, cleanApp, cleanTgt, appSaw, tgtSaw, fault>>
+  /\ UNCHANGED <<want, reach, dials, sentUp, gotUp, sentDown, gotDown, appClosed, tgtClosed, cleanApp, cleanTgt, appSaw, tgtSaw, fault, lapsed>>
 
 AppWrite(n) ==
   /\ phase = "open" /\ appClosed = "no"
   /\ sentUp' = sentUp + n
   /\ cleanTgt' = (cleanTgt /\ tgtClosed # "close")      \* as in TgtWrite
-  /\ UNCHANGED <<phase, want, reach, dials, gotUp, sentDown, gotDown, appClosed, tgtClosed, cleanApp, appSaw, tgtSaw, fault>>
+  /\ UNCHANGED <<phase, want, reach, dials, gotUp, sentDown, gotDown, appClosed, tgtClosed, cleanApp, appSaw, tgtSaw, fault, lapsed>>
 
 TgtWrite(n) ==
   /\ Dialed /\ tgtClosed = "no"
@@ -59,7 +60,7 @@ TgtWrite(n) ==
   \* a side that did close() (not a half-close) while the peer still sends is not an orderly closer any more:
   \* its kernel answers the late data with a reset
   /\ cleanApp' = (cleanApp /\ appClosed # "close")
-  /\ UNCHANGED <<phase, want, reach, dials, sentUp, gotUp, gotDown, appClosed, tgtClosed, cleanTgt, appSaw, tgtSaw, fault>>
+  /\ UNCHANGED <<phase, want, reach, dials, sentUp, gotUp, gotDown, appClosed, tgtClosed, cleanTgt, appSaw, tgtSaw, fault, lapsed>>
 
 (* An orderly close: a half-close, or a close() with everything the peer sent already read.  close() with
    unread input, and an abortive close, make the kernel send a reset; nothing is owed after those.     *)
@@ -67,18 +68,18 @@ AppClose(how) ==
   /\ phase = "open" /\ appClosed = "no" /\ how \in Hows
   /\ appClosed' = how
   /\ cleanApp' = (how = "fin" \/ (how = "close" /\ gotDown = sentDown))
-  /\ UNCHANGED <<phase, want, reach, dials, sentUp, gotUp, sentDown, gotDown, tgtClosed, cleanTgt, appSaw, tgtSaw, fault>>
+  /\ UNCHANGED <<phase, want, reach, dials, sentUp, gotUp, sentDown, gotDown, tgtClosed, cleanTgt, appSaw, tgtSaw, fault, lapsed>>
 
 TgtClose(how) ==
   /\ Dialed /\ tgtClosed = "no" /\ how \in Hows
   /\ tgtClosed' = how
   /\ cleanTgt' = (how = "fin" \/ (how = "close" /\ gotUp = sentUp))
-  /\ UNCHANGED <<phase, want, reach, dials, sentUp, gotUp, sentDown, gotDown, appClosed, cleanApp, appSaw, tgtSaw, fault>>
+  /\ UNCHANGED <<phase, want, reach, dials, sentUp, gotUp, sentDown, gotDown, appClosed, cleanApp, appSaw, tgtSaw, fault, lapsed>>
 
 Fault ==
   /\ phase = "open" /\ ~fault
   /\ fault' = TRUE
-  /\ UNCHANGED <<phase, want, reach, dials, sentUp, gotUp, sentDown, gotDown, appClosed, tgtClosed, cleanApp, cleanTgt, appSaw, tgtSaw>>
+  /\ UNCHANGED <<phase, want, reach, dials, sentUp, gotUp, sentDown, gotDown, appClosed, tgtClosed, cleanApp, cleanTgt, appSaw, tgtSaw, lapsed>>
 
 -----------------------------------------------------------------------------
 (* system *)
@@ -87,18 +88,18 @@ Fault ==
 Dial(l) ==
   /\ phase = "open" /\ dials = <<>> /\ l = want /\ reach = "ok"
   /\ dials' = <<l>>
-  /\ UNCHANGED <<phase, want, reach, sentUp, gotUp, sentDown, gotDown, appClosed, tgtClosed, cleanApp, cleanTgt, appSaw, tgtSaw, fault>>
+  /\ UNCHANGED <<phase, want, reach, sentUp, gotUp, sentDown, gotDown, appClosed, tgtClosed, cleanApp, cleanTgt, appSaw, tgtSaw, fault, lapsed>>
 
 \* PrefixUp: what the target reads is the next n bytes of what the application wrote
 DeliverUp(n, ok) ==
   /\ Dialed /\ ok /\ n > 0 /\ gotUp + n <= sentUp /\ tgtSaw = "no"
   /\ gotUp' = gotUp + n
-  /\ UNCHANGED <<phase, want, reach, dials, sentUp, sentDown, gotDown, appClosed, tgtClosed, cleanApp, cleanTgt, appSaw, tgtSaw, fault>>
+  /\ UNCHANGED <<phase, want, reach, dials, sentUp, sentDown, gotDown, appClosed, tgtClosed, cleanApp, cleanTgt, appSaw, tgtSaw, fault, lapsed>>
 
 DeliverDown(n, ok) ==
   /\ phase = "open" /\ ok /\ n > 0 /\ gotDown + n <= sentDown /\ appSaw = "no"
   /\ gotDown' = gotDown + n
-  /\ UNCHANGED <<phase, want, reach, dials, sentUp, gotUp, sentDown, appClosed, tgtClosed, cleanApp, cleanTgt, appSaw, tgtSaw, fault>>
+  /\ UNCHANGED <<phase, want, reach, dials, sentUp, gotUp, sentDown, appClosed, tgtClosed, cleanApp, cleanTgt, appSaw, tgtSaw, fault, lapsed>>
 
 (* The application observes the end of the stream.
    - something must have ended the flow: the target closed, the application closed, the address cannot be
@@ -106,21 +107,55 @@ DeliverDown(n, ok) ==
    - after an orderly close of the target, with the application still open, the application has the COMPLETE
      answer before the end (CompleteDown) and the end is an end-of-stream unless the application itself still
      had bytes under way to the now closed target (those are answered by a reset).                      *)
-AppEnd(how) ==
+\* StillReads: which closes of a side leave it able to receive.  A half-close ("fin") does: the side has only
+\* finished SENDING, the answer to what it sent is still owed to it in full (HalfCloseComplete) - unless the outer
+\* sides then stayed silent for longer than the close grace (lapsed), after which the relay may give the flow up.
+AppEndOK(how, stillReads) ==
   /\ phase = "open" /\ appSaw = "no" /\ how \in {"eof", "rst"}
-  /\ tgtClosed # "no" \/ appClosed # "no" \/ reach # "ok" \/ fault
-  /\ (cleanTgt /\ appClosed = "no" /\ ~fault) => /\ gotDown = sentDown
-                                                  /\ (how = "eof" \/ sentUp > gotUp)
+  \* NoSpuriousEnd: something ended the flow.  The application's own half-close does not end the direction towards it.
+  /\ \/ tgtClosed # "no" \/ reach # "ok" \/ fault
+     \/ appClosed \in ({"fin", "close", "rst"} \ stillReads)
+     \/ (appClosed = "fin" /\ (lapsed \/ ~Dialed))
+  /\ (cleanTgt /\ appClosed \in stillReads /\ ~fault /\ ~(lapsed /\ appClosed # "no"))
+         => /\ gotDown = sentDown
+            /\ (how = "eof" \/ sentUp > gotUp)
   /\ appSaw' = how
-  /\ UNCHANGED <<phase, want, reach, dials, sentUp, gotUp, sentDown, gotDown, appClosed, tgtClosed, cleanApp, cleanTgt, tgtSaw, fault>>
+
+AppEnd(how) ==
+  /\ AppEndOK(how, {"no", "fin"})
+  /\ UNCHANGED <<phase, want, reach, dials, sentUp, gotUp, sentDown, gotDown, appClosed, tgtClosed, cleanApp, cleanTgt, tgtSaw, fault, lapsed>>
+
+TgtEndOK(how, stillReads) ==
+  /\ Dialed /\ tgtSaw = "no" /\ how \in {"eof", "rst"}
+  /\ \/ appClosed # "no" \/ fault
+     \/ tgtClosed \in ({"fin", "close", "rst"} \ stillReads)
+     \/ (tgtClosed = "fin" /\ lapsed)
+  /\ (cleanApp /\ tgtClosed \in stillReads /\ ~fault /\ ~(lapsed /\ tgtClosed # "no"))
+         => /\ gotUp = sentUp
+            /\ (how = "eof" \/ sentDown > gotDown)
+  /\ tgtSaw' = how
 
 TgtEnd(how) ==
-  /\ Dialed /\ tgtSaw = "no" /\ how \in {"eof", "rst"}
-  /\ tgtClosed # "no" \/ appClosed # "no" \/ fault
-  /\ (cleanApp /\ tgtClosed = "no" /\ ~fault) => /\ gotUp = sentUp
-                                                  /\ (how = "eof" \/ sentDown > gotDown)
-  /\ tgtSaw' = how
-  /\ UNCHANGED <<phase, want, reach, dials, sentUp, gotUp, sentDown, gotDown, appClosed, tgtClosed, cleanApp, cleanTgt, appSaw, fault>>
+  /\ TgtEndOK(how, {"no", "fin"})
+  /\ UNCHANGED <<phase, want, reach, dials, sentUp, gotUp, sentDown, gotDown, appClosed, tgtClosed, cleanApp, cleanTgt, appSaw, fault, lapsed>>
+
+(* Named deviation "NoHalfClose" (a link that cannot carry a half-close, see TcpRelay Link = "ws"): completeness is
+   honoured only towards a side that has not closed at all.  Not part of Next of the ideal specification; TraceRelay
+   offers these two steps only for deviations listed as open findings and reports their use.                     *)
+AppEndNoHalf(how) ==
+  /\ appClosed = "fin" /\ ~ENABLED AppEnd(how)
+  /\ AppEndOK(how, {"no"})
+  /\ UNCHANGED <<phase, want, reach, dials, sentUp, gotUp, sentDown, gotDown, appClosed, tgtClosed, cleanApp, cleanTgt, tgtSaw, fault, lapsed>>
+TgtEndNoHalf(how) ==
+  /\ tgtClosed = "fin" /\ ~ENABLED TgtEnd(how)
+  /\ TgtEndOK(how, {"no"})
+  /\ UNCHANGED <<phase, want, reach, dials, sentUp, gotUp, sentDown, gotDown, appClosed, tgtClosed, cleanApp, cleanTgt, appSaw, fault, lapsed>>
+
+\* environment / time: one side has closed and the outer sides then stayed silent for longer than the close grace
+Lapse ==
+  /\ phase = "open" /\ (appClosed # "no" \/ tgtClosed # "no")
+  /\ lapsed' = TRUE
+  /\ UNCHANGED <<phase, want, reach, dials, sentUp, gotUp, sentDown, gotDown, appClosed, tgtClosed, cleanApp, cleanTgt, appSaw, tgtSaw, fault>>
 
 -----------------------------------------------------------------------------
 (* observer *)
